@@ -246,6 +246,8 @@ theorem readStringListAux_length (fuel : Nat) (s : Str) (acc : List Str) :
     | cons c s1 =>
       rw [h1] at l1
       simp only
+      have l3 : (dropEndWhile isBlank ((c :: s1).takeWhile (fun d => !isBraceOrComma d))).length ≤ (c :: s1).length :=
+        Nat.le_trans (dropEndWhile_sublist _ _).length_le (List.takeWhile_sublist _).length_le
       cases h2 : (c :: s1).dropWhile (fun d => !isBraceOrComma d) with
       | nil =>
         simp only
@@ -257,8 +259,6 @@ theorem readStringListAux_length (fuel : Nat) (s : Str) (acc : List Str) :
           · right
             simp only [List.mem_singleton] at he
             subst he
-            have h3 : (dropEndWhile isBlank (c :: s1)).length ≤ (c :: s1).length := (dropEndWhile_sublist _ _).length_le
-            rw [List.length_dropLast]
             omega
       | cons b t =>
         simp only
@@ -266,9 +266,7 @@ theorem readStringListAux_length (fuel : Nat) (s : Str) (acc : List Str) :
           have := length_dropWhile_le (fun d => !isBraceOrComma d) (c :: s1)
           rw [h2] at this
           simpa using this
-        have l3 : ((c :: s1).takeWhile (fun d => !isBraceOrComma d)).length ≤ (c :: s1).length :=
-          (List.takeWhile_sublist _).length_le
-        have := ih t (acc ++ [(c :: s1).takeWhile (fun d => !isBraceOrComma d)])
+        have := ih t (acc ++ [dropEndWhile isBlank ((c :: s1).takeWhile (fun d => !isBraceOrComma d))])
         constructor
         · have := this.1
           simp only [List.length_append, List.length_cons, List.length_nil] at this l1 l2 ⊢
